@@ -56,7 +56,7 @@ Qed.
 
 Lemma no_class_ok t : no_url_attrs t -> class_ok t.
 Proof.
-  intros [_ N]. unfold class_ok. destruct (alookup s_class (tattrs t)) as [[v|z]|] eqn:E; try exact I.
+  intros [_ [N _]]. unfold class_ok. destruct (alookup s_class (tattrs t)) as [[v|z]|] eqn:E; try exact I.
   apply alookup_In_key in E. exact (N z E).
 Qed.
 
